@@ -341,6 +341,10 @@ func c20(w *core.World, r *core.Report) {
 	ruleBisyncRestoreReplace(w, r)
 	r.Rule("R20.11", "all chunks of one key reach the worker that made the key-exists decision: the distributor picks the worker of a keyed entry from the key alone", 1)
 	ruleChunksSameWorker(w, r)
+	r.Rule("R20.15", "a failed RESTORE falls back to native commands (which skip the key-exists probe) only for the 'Bad data format' reply", 1)
+	ruleNativeFallbackOnlyForBadFormat(w, r)
+	r.Rule("R10.15", "every snapshot key the filters let through reaches the policy: an intact entry is withheld only by the database, key or slot rule (shared with C10)", 2)
+	ruleWithheldOnlyByFilters(w, r)
 	r.Rule("R20.13", "the policy value the replay paths switch on is one of replace / ignore / error on every successful path of the configuration's fix", 1)
 	rulePolicyValueNormalised(w, r)
 	r.Rule("R20.12", "a chunked value is known as such from its first chunk", 1)
@@ -1097,4 +1101,74 @@ func constMapKeysIn(w *core.World, v ssa.Value, allowed map[string]bool) bool {
 		}
 	}
 	return true
+}
+
+// ---------------------------------------------------------------- R20.15 a failed RESTORE falls back to native commands for one reason only
+
+// ruleNativeFallbackOnlyForBadFormat: when RESTORE is answered with "Bad data
+// format" (a payload version the target does not read) the entry is written with
+// native commands instead. That fallback does not go through the key-exists probe
+// of the native branch, so it must stay confined to that one reply: widened to
+// other refusals of RESTORE (an unknown command behind a proxy, NOPERM) it writes
+// an entry over an existing key without EXISTS / DEL — ignore merges, error does
+// not stop, replace mixes old and new members.
+func ruleNativeFallbackOnlyForBadFormat(w *core.World, r *core.Report) {
+	f := fn(w, r, replayFn)
+	if f == nil {
+		return
+	}
+	isRestoreDo := func(s core.Site) bool {
+		if !s.Common().IsInvoke() || s.Method != "Do" {
+			return false
+		}
+		a := s.Common().Args
+		if len(a) == 0 {
+			return false
+		}
+		c, ok := core.ConstString(a[0])
+		return ok && strings.EqualFold(c, "restore")
+	}
+	isBadFormat := func(v ssa.Value) bool {
+		c, ok := core.Unwrap(v).(*ssa.Call)
+		if !ok || core.ResolveCall(c).Name != "strings.Contains" || len(c.Call.Args) != 2 {
+			return false
+		}
+		txt, isC := core.ConstString(c.Call.Args[1])
+		return isC && txt == "Bad data format"
+	}
+	bad := ""
+	var pos token.Pos = f.Pos()
+	n := 0
+	okEnum := core.EnumPathsN(f.Blocks[0], 0, 400000, 2, func(p *core.Path) {
+		if bad != "" {
+			return
+		}
+		var failedRestore ssa.Instruction
+		sites := pathSites(p)
+		for _, s := range sites {
+			if isRestoreDo(s) {
+				failedRestore = nil
+				// the reply of RESTORE is judged through a helper (common.String(cli.Do(...))): the failure is
+				// whatever error test follows it on the path
+				failedRestore = s.Instr
+			}
+			if failedRestore != nil && strings.HasSuffix(s.Name, "rdbrestore.restoreBigRdbEntry") {
+				n++
+				okReason := false
+				for _, fct := range factsBetween(p, failedRestore, s.Instr) {
+					if fct.Val && isBadFormat(p.Resolve(fct.Cond)) {
+						okReason = true
+					}
+				}
+				if !okReason {
+					bad, pos = "after a RESTORE attempt the entry is written with native commands on a path that did not establish the 'Bad data format' reply: the key-exists policy (EXISTS probe, DEL) is bypassed for that entry", s.Pos()
+				}
+			}
+		}
+	})
+	if !okEnum {
+		r.Undecided("Replay/native-fallback-only-for-bad-format", f.Pos(), "too many paths")
+		return
+	}
+	r.Check(bad == "" && n > 0, "Replay/native-fallback-only-for-bad-format", pos, "%s (fallback paths=%d)", bad, n)
 }
